@@ -203,11 +203,26 @@ def r15c(model: Model, rr: RuleResult):
             rr.bad(key, key.node, "the colour sort key changed: indexed colours must sort by index before all unindexed ones", construct="_color_sort_key")
     # var(--colorN, c) parsing
     fs = model.func("colors", "Color.fromstring")
-    t = " ".join(norm(s) for s in walk_body(fs) if isinstance(s, (ast.Assign, ast.Return)))
-    if "palette_index = int(m.group(1))" in t and "tmp._replace(palette_index=palette_index)" in t:
+    fcfg = cfg_of(fs)
+    var_rets = []
+    for st in walk_body(fs):
+        if isinstance(st, ast.Return) and st.value is not None:
+            facts = [norm(e) for e, pol in guard_facts(fcfg, fcfg.node_for(st)) if pol]
+            if "m" in facts:
+                var_rets.append(st)
+    if len(var_rets) != 1:
+        raise AnalysisError("Color.fromstring: the var(--colorN, c) branch (`if m:` ... return) not found")
+    _, vexprs = expr_closure(fcfg, fcfg.node_for(var_rets[0]), var_rets[0].value)
+    reps = [c for e in vexprs for c in ast.walk(e) if isinstance(c, ast.Call) and callee_tail(c) == "_replace" and kwarg(c, "palette_index") is not None]
+    ok = False
+    for c in reps:
+        _, pe = expr_closure(fcfg, fcfg.node_for(var_rets[0]), kwarg(c, "palette_index"))
+        if any("int(m.group(1))" in norm(x) for x in pe):
+            ok = True
+    if ok:
         rr.ok("var(--colorN, c): N becomes palette_index of the fallback colour c")
     else:
-        rr.bad(fs, fs.node, "var(--colorN, c) no longer records N as the palette index", construct="Color.fromstring: var(--colorN)")
+        rr.bad(fs, var_rets[0], "var(--colorN, c) no longer records N as the palette index", construct="Color.fromstring: var(--colorN)")
 
 
 @RULES.rule("C15", "R15d", "Color.opaque() changes alpha only (palette index and RGB are kept)", floor=1)
@@ -250,3 +265,39 @@ def r15d(model: Model, rr: RuleResult):
     wp = model.func("colors", "Color.without_palette_index")
     if any("_replace(palette_index=None)" in norm(st) for st in walk_body(wp)):
         rr.ok("without_palette_index() is the only method that drops the index")
+
+
+@RULES.rule("C15", "R15e", "opacity handed to Color.fromstring reaches the colour on every branch; colours rebuilt from components keep their palette index", floor=4)
+def r15e(model: Model, rr: RuleResult):
+    from ..dataflow import param_closure
+    fs = model.func("colors", "Color.fromstring")
+    fcfg = cfg_of(fs)
+    if "alpha" not in fs.params:
+        raise AnalysisError("Color.fromstring: parameter alpha not found")
+    for st in walk_body(fs):
+        if isinstance(st, ast.Return) and st.value is not None:
+            if "alpha" in param_closure(fcfg, fcfg.node_for(st), st.value):
+                rr.ok(f"fromstring: `{short(st, 70)}` carries the caller's alpha (shape opacity)")
+            else:
+                rr.bad(fs, st, f"`{short(st, 70)}` ignores the alpha argument: the opacity of the shape (passed in by color_glyph._paint_glyph) is lost for this "
+                       f"kind of colour string — the paint is emitted fully opaque", construct=f"Color.fromstring: {short(st, 60)} independent of alpha")
+    # colours rebuilt from another colour's components (outside colors.py's own parsers and the COLR->SVG direction)
+    fields = [f for f, _, _ in model.mod("colors").cls("Color").fields]
+    for mname in ("color_glyph", "paint", "svg", "write_font", "glyph_reuse"):
+        mod = model.mod(mname)
+        for fi in mod.functions.values():
+            if "." in fi.qualname and fi.qualname.rsplit(".", 1)[0] in mod.functions:
+                continue
+            for c in calls_in(fi, nested=True):
+                if norm(c.func) not in ("Color", "colors.Color"):
+                    continue
+                rgb = c.args[:3]
+                if len(rgb) == 3 and all(isinstance(a, ast.Constant) for a in rgb):
+                    rr.ok(f"{mname}.{fi.qualname}: {short(c, 50)} is a fresh constant colour")
+                    continue
+                given = set(fields[: len(c.args)]) | {k.arg for k in c.keywords}
+                if "palette_index" in given:
+                    rr.ok(f"{mname}.{fi.qualname}: {short(c, 50)} passes palette_index")
+                else:
+                    rr.bad(fi, c, f"{short(c, 70)} rebuilds a colour from components without its palette_index: a var(--colorN, c) colour that goes through here "
+                           f"becomes an ordinary unindexed colour (use _replace to change single fields)", construct=f"{fi.qualname}: {short(c, 60)} without palette_index")
